@@ -161,6 +161,9 @@ struct ChannelMap
     std::uint64_t chan = 0, dims = 0;
     // breaks[(c * dims + j)] = breakpoints t_0..t_B of channel c in dimension j
     std::vector<std::vector<long double>> breaks;
+    // support of channel c in dimension 0: [slo[c], shi[c]] (density zero outside); default [0, 1]
+    std::vector<long double> slo, shi;
+    bool singular = false;   // one channel's density is infinite at some points
     long double jac = 1;
 
     void build(Plan const& p);
